@@ -192,3 +192,74 @@ def _l_complement():
 
 s, g = _l_complement()
 _lemma("C07.lemma#LEMMA:complement-and-missing", s, g)
+
+
+# ------------------------------------------------------------------ clean (C04)
+class StubVar(object):
+    """stand-in for a netCDF4 variable: v.shape, v[:] returns the stored masked array (assumed netCDF4 contract)"""
+    def __init__(self, marr):
+        self._m = marr
+
+    @property
+    def shape(self):
+        return self._m.shape
+
+    def __getitem__(self, key):
+        return self._m[key]
+
+
+def _clean(axes):
+    def setup(G):
+        x = G.array("x", axes, kinds=ALL_KINDS)
+        m = G.array("m", axes, dtype="bool")
+        return Bag(x=x, m=m, x0=x.copy())
+
+    def call(inp):
+        if hasattr(inp.x, "axes"):
+            import pyvc.shim_np as sh
+            marr = sh.np_shim.ma.masked_array(inp.x, mask=inp.m)
+            # the variable hands out its own storage: writes through v[:] would reach inp.x
+            marr.store = inp.x.store
+        else:
+            import numpy as np
+            marr = np.ma.masked_array(inp.x, mask=inp.m)
+        return verif.util.clean(StubVar(marr))
+
+    def post(S, inp, out):
+        if S.symbolic and not hasattr(out, "axes"):
+            # the early return for an empty one-dimensional variable: a real, empty ndarray
+            return [("empty-1d-variable-gives-empty-array", S.and_(S.same(S.length(inp.x0), 0), len(out) == 0))]
+
+        def body(i):
+            x, r = S.at(inp.x0, i), S.at(out, i)
+            missing = S.or_(S.at(inp.m, i), S.isnan(x), S.same(x, -999), x > 1e30)
+            return S.and_(S.iff(S.isnan(r), missing), S.implies(S.not_(missing), S.same(r, x)))
+
+        def frame(i):
+            return S.same(S.at(inp.x, i), S.at(inp.x0, i))
+        return [("every-encoding-of-missing-becomes-nan,other-values-unchanged", S.and_(S.same_domain(out, inp.x0), S.forall(inp.x0, body))),
+                ("FRAME:variable-data-not-modified", S.forall(inp.x0, frame))]
+    return setup, call, post
+
+
+for _axes, _tag in ((("n",), "1d"), (("t", "l", "s"), "3d"), (("t", "l", "s", "e"), "4d")):
+    s, c, p = _clean(_axes)
+    register(Obligation("verif.util.clean#POST:%s" % _tag, ("C04",), s, c, p, modules=MOD, functions=["verif.util.clean"],
+                        assumptions=["netCDF4: variable[:] returns the stored values as a numpy masked array (fill/valid_range cells masked)"]))
+
+
+def _clean_empty():
+    def setup(G):
+        return Bag(dummy=G.num("dummy"))
+
+    def call(inp):
+        import numpy as np
+        return verif.util.clean(StubVar(np.ma.masked_array(np.zeros(0), mask=np.zeros(0, bool))))
+
+    def post(S, inp, out):
+        return [("empty-1d-variable-gives-empty-array", len(out) == 0)]
+    return setup, call, post
+
+
+s, c, p = _clean_empty()
+register(Obligation("verif.util.clean#POST:empty", ("C04",), s, c, p, modules=MOD, functions=["verif.util.clean"]))
